@@ -237,4 +237,36 @@ theorem ipset_host_line_single (pp : Option (PAddr × Int)) (a : PAddr) :
   intro y
   exact Props.C13.host_line_single a y
 
+/-! ### the merge loop of `Sort` (regenerated body) is the model's `mergeStep` -/
+
+open Model.C13 in
+/-- What the regenerated body of `Sort`'s loop decides for the prefix `n`, given the last prefix kept so far
+(`lv`, the head of the reversed `out`): 1 = append, 2 = replace `lv`, 0 = drop. On intervals `n.Bits() < lv.Bits()`
+with equal base addresses is `lv.hi < n.hi`. -/
+def applyMergeDecision (out : List Iv) (n : Iv) : List Iv :=
+  match out with
+  | [] => if Gen.sortMergeDecision 0 false false false == 1 then [n] else []
+  | lv :: rest =>
+    let d := Gen.sortMergeDecision 1 (decide (n.lo = lv.lo)) (decide (lv.hi < n.hi)) (lv.covers n.lo)
+    if d == 1 then n :: lv :: rest else if d == 2 then n :: rest else lv :: rest
+
+open Model.C13 in
+/-- **Refinement**: one iteration of the loop in `List.Sort`, as regenerated from the source, is the model's
+`mergeStep`; hence `Sort`'s merge is `mergeRev` and the theorems about `contains` apply to it. -/
+theorem mergeStep_eq_gen (out : List Iv) (n : Iv) : mergeStep out n = applyMergeDecision out n := by
+  cases out with
+  | nil => simp [mergeStep, applyMergeDecision, Gen.sortMergeDecision]
+  | cons lv rest =>
+    simp only [mergeStep, applyMergeDecision, Gen.sortMergeDecision]
+    by_cases h1 : n.lo = lv.lo
+    · by_cases h2 : lv.hi < n.hi <;> simp [h1, h2]
+    · by_cases h3 : lv.covers n.lo = true <;> simp [h1, h3]
+
+open Model.C13 in
+theorem mergeRev_eq_gen (l : List Iv) : mergeRev l = l.foldl applyMergeDecision [] := by
+  unfold mergeRev
+  congr 1
+  funext out n
+  exact mergeStep_eq_gen out n
+
 end Refine.C13
